@@ -6,3 +6,15 @@ pub mod common;
 
 #[cfg(any(kani, test))]
 mod c20_metavar;
+#[cfg(any(kani, test))]
+mod c07_template;
+#[cfg(any(kani, test))]
+mod c16_positions;
+#[cfg(any(kani, test))]
+mod c10_edit;
+#[cfg(any(kani, test))]
+mod c19_nav;
+#[cfg(any(kani, test))]
+mod c03_align;
+#[cfg(any(kani, test))]
+mod c01_search;
